@@ -12,7 +12,8 @@ the topic — deleting the topic's entry when it was the last key.
 after every finite history of allow_key / remove_key calls, accepted or not, from the empty store (`run_inv`), hence
 `gen_key_allowed_iff_authorized`: the getter `is_key_allowed_for_topic` answers true exactly when some authorisation
 (topic, registry) of the key is currently recorded. `run_bounded`: over every history no topic lists more than 50 keys
-and no key holds more than 20 pairs.
+and no key holds more than 20 pairs. `run_noEmpty`: no stored entry is ever an empty list (the writers delete instead), hence
+`gen_get_keys_for_topic`: the getter answers the topic's list when a key is allowed for it and traps exactly when none is.
 Property theorems only.
 -/
 namespace OZ.Gen.Keys
@@ -401,6 +402,82 @@ theorem run_bounded (envr : Keys.Reads) (ops : List Op) : Bounded (ops.foldl (st
   induction ops with
   | nil => intro st h; exact h
   | cons op r ih => intro st h; exact ih _ (step_bounded envr h op)
+
+/-! ### no empty entry lingers -/
+
+/-- storage hygiene: an entry that exists is never an empty list (the writers delete instead of storing `[]`) -/
+def NoEmpty (st : Keys.Store) : Prop :=
+  (∀ t, st.Topics t ≠ some []) ∧ (∀ k, st.Pairs k ≠ some [])
+
+theorem allowed_noEmpty {st : Keys.Store} (h : NoEmpty st) (pk : List Nat) (reg sc t : Nat) :
+    NoEmpty (allowed st pk reg sc t) := by
+  unfold allowed
+  refine ⟨fun t' => ?_, fun k' => ?_⟩
+  · by_cases hm : (⟨pk, sc⟩ : Keys.SigningKey) ∈ topicKeys st t
+    · simp only [hm, ↓reduceIte, Keys.Store.set_Pairs]; exact h.1 t'
+    · simp only [hm, ↓reduceIte, Keys.Store.set_Pairs, Keys.Store.set_Topics]
+      by_cases ht : t' = t
+      · simp [ht]
+      · simp only [ht, ↓reduceIte]; exact h.1 t'
+  · by_cases hk : k' = ⟨pk, sc⟩
+    · simp [hk, Keys.Store.set_Pairs]
+    · by_cases hm : (⟨pk, sc⟩ : Keys.SigningKey) ∈ topicKeys st t <;>
+        simp only [hm, ↓reduceIte, Keys.Store.set_Pairs, Keys.Store.set_Topics, hk] <;> exact h.2 k'
+
+theorem removed_noEmpty {st : Keys.Store} (h : NoEmpty st) (pk : List Nat) (reg sc t : Nat) :
+    NoEmpty (removed st pk reg sc t) := by
+  unfold removed
+  generalize (pairsOf st ⟨pk, sc⟩).erase (t, reg) = ps
+  generalize (topicKeys st t).erase (⟨pk, sc⟩ : Keys.SigningKey) = ks
+  refine ⟨fun t' => ?_, fun k' => ?_⟩
+  · by_cases ht : t' = t
+    · cases ps <;> cases ks <;>
+        simp only [List.isEmpty_nil, List.isEmpty_cons, List.any_nil, ↓reduceIte, Bool.false_eq_true] <;>
+        (try split) <;>
+        simp [ht, Keys.Store.set_Pairs, Keys.Store.del_Pairs, Keys.Store.del_Topics, Keys.Store.set_Topics] <;>
+        exact h.1 t
+    · cases ps <;> cases ks <;>
+        simp only [List.isEmpty_nil, List.isEmpty_cons, List.any_nil, ↓reduceIte, Bool.false_eq_true] <;>
+        (try split) <;>
+        simp [ht, Keys.Store.set_Pairs, Keys.Store.del_Pairs, Keys.Store.del_Topics, Keys.Store.set_Topics] <;>
+        exact h.1 t'
+  · by_cases hk : k' = ⟨pk, sc⟩
+    · cases ps <;> cases ks <;>
+        simp only [List.isEmpty_nil, List.isEmpty_cons, List.any_nil, ↓reduceIte, Bool.false_eq_true] <;>
+        (try split) <;>
+        simp [hk, Keys.Store.set_Pairs, Keys.Store.del_Pairs, Keys.Store.del_Topics, Keys.Store.set_Topics]
+    · cases ps <;> cases ks <;>
+        simp only [List.isEmpty_nil, List.isEmpty_cons, List.any_nil, ↓reduceIte, Bool.false_eq_true] <;>
+        (try split) <;>
+        simp [hk, Keys.Store.set_Pairs, Keys.Store.del_Pairs, Keys.Store.del_Topics, Keys.Store.set_Topics] <;>
+        exact h.2 k'
+
+theorem step_noEmpty (envr : Keys.Reads) {st : Keys.Store} (h : NoEmpty st) (op : Op) : NoEmpty (step envr st op) := by
+  cases op with
+  | allow pk reg sc t => rw [step_allow_eq]; split; exact allowed_noEmpty h pk reg sc t; exact h
+  | remove pk reg sc t => rw [step_remove_eq]; split; exact removed_noEmpty h pk reg sc t; exact h
+
+theorem run_noEmpty (envr : Keys.Reads) (ops : List Op) : NoEmpty (ops.foldl (step envr) emptyStore) := by
+  suffices ∀ st, NoEmpty st → NoEmpty (ops.foldl (step envr) st) from
+    this _ ⟨fun t => by simp [emptyStore], fun k => by simp [emptyStore]⟩
+  induction ops with
+  | nil => intro st h; exact h
+  | cons op r ih => intro st h; exact ih _ (step_noEmpty envr h op)
+
+/-- **`get_keys_for_topic` over every history**: it answers the topic's key list when some key is allowed for the topic
+and traps (`KeysNotFound`) exactly when none is -/
+theorem gen_get_keys_for_topic (envr : Keys.Reads) (ops : List Op) (t : Nat) :
+    let st := ops.foldl (step envr) emptyStore
+    (topicKeys st t ≠ [] → Keys.get_keys_for_topic envr st t = .ok (topicKeys st t)) ∧
+    (topicKeys st t = [] → Keys.get_keys_for_topic envr st t = .panic) := by
+  intro st
+  have hne := (run_noEmpty envr ops).1 t
+  unfold Keys.get_keys_for_topic topicKeys
+  cases hT : st.Topics t with
+  | none => simp [Comp.unwrap]
+  | some l =>
+    have : l ≠ [] := fun e => hne (by rw [hT, e])
+    simp [Comp.unwrap, this]
 
 /-- non-vacuity: allow then remove on the witness environment of C20GenKeys returns to the empty lists -/
 example : let st := [Op.allow [7] 4 0 1, Op.remove [7] 4 0 1].foldl (step envr0) emptyStore
